@@ -21,12 +21,16 @@ package newick
 //@   ensures S.pos >= p0 && S.pos <= S.end
 //@   ensures S.fired == (old(r.r.fired) || result.1 == S.err)
 //@   ensures p0 == S.end && active0 ==> result.1 == S.err
+//@   ensures @C05,C06,C11 result.1 == nil ==> len(result.0) >= 1
+//@   ensures @C05,C06,C11 result.1 == nil && result.0[0] != 39 ==> forall k int :: 0 <= k && k < len(result.0) ==> !nwWS(result.0[k]) && result.0[k] != 39
+//@   ensures @C05,C06,C11 result.1 == nil && result.0[0] != 39 && len(result.0) >= 2 ==> forall k int :: 0 <= k && k < len(result.0) ==> !nwSep(result.0[k])
 //@   loop 1
 //@     invariant r != nil
 //@     invariant p0 <= r.r.pos && r.r.pos <= S.end
 //@     invariant r.r.fired == old(r.r.fired)
 //@     invariant len(r.b.out) > 0 ==> r.r.pos > p0
-//@     invariant quote ==> len(r.b.out) > 0
+//@     invariant quote ==> len(r.b.out) > 0 && r.b.out[0] == 39
+//@     invariant !quote ==> forall k int :: 0 <= k && k < len(r.b.out) ==> !nwWS(r.b.out[k]) && !nwSep(r.b.out[k]) && r.b.out[k] != 39
 //@     decreases S.end - r.r.pos
 
 //@ func reader.read
@@ -129,3 +133,24 @@ package newick
 //@     invariant d >= 0 && !pre ==> len(Y) == firstN(stack[d].n) + psum(stack[d].n, stack[d].i)
 //@     invariant d < 0 ==> len(Y) == tsize(n)
 //@     invariant forall t int :: 0 <= t && t < len(Y) ==> Y[t] != nil && (pre ? preN(Y[t]) : postN(Y[t])) == t
+
+// ---- name codec (C05) ----
+// A name free of special bytes is written bare with spaces as '_' and is then a
+// single tokenizer token (no whitespace, separator or quote byte); any other
+// name is written between single quotes.
+
+//@ func nameToText
+//@   props C05
+//@   let special := exists k int :: 0 <= k && k < len(s) && nwQ(s[k])
+//@   ensures !special ==> len(result) == len(s) && forall k int :: 0 <= k && k < len(s) ==> result[k] == (s[k] == 32 ? '_' : s[k])
+//@   ensures !special ==> forall k int :: 0 <= k && k < len(result) ==> !nwWS(result[k]) && !nwSep(result[k]) && result[k] != 39
+//@   ensures special ==> len(result) >= 2 && result[0] == 39 && result[len(result) - 1] == 39
+
+//@ func quoted
+//@   props C05
+//@   ensures result <==> (len(s) >= 2 && s[0] == 39 && s[len(s) - 1] == 39)
+
+//@ func nameFromText
+//@   props C05 C11
+//@   ensures !(len(s) >= 2 && s[0] == 39 && s[len(s) - 1] == 39) ==>
+//@             len(result) == len(s) && forall k int :: 0 <= k && k < len(s) ==> result[k] == (s[k] == '_' ? 32 : s[k])
